@@ -404,7 +404,7 @@ pub fn gen_legacy(rng: &mut Rng, thorough: bool) -> Vec<String> {
     let sym = |i: u64| format!("c{}_{}", (i % 2) + 1, i);
     for c in 1..=2u64 {
         for i in 0..20u64 {
-            ops.push(format!("bind c{}_{} contract{}", c, i, i));
+            ops.push(format!("bind c{}_{} {}", c, i, crate::wasm::legacy_name(i)));
         }
     }
     ops.push("store A".into());
@@ -417,7 +417,8 @@ pub fn gen_legacy(rng: &mut Rng, thorough: bool) -> Vec<String> {
     ops.push("dump".into());
     // keys whose first bytes spell the tail of a longer sibling address ("0", "1", "2", "0k" …)
     let keys = ["30", "31", "32", "306b", "316b", "30+6b", "-", "6b", "3030", "ff"];
-    let focus: Vec<String> = [1u64, 10, 11, 12, 2, 0].iter().map(|i| sym(*i)).collect();
+    // contract1 / contract10 / contract11 / contract12 (prefixes), contract3 / CONTRACT3 and contract8 / CONTRACT8 (case)
+    let focus: Vec<String> = [1u64, 10, 11, 12, 3, 4, 8, 9].iter().map(|i| sym(*i)).collect();
     let n = if thorough { rng.range(5, 12) } else { rng.range(3, 7) };
     for _ in 0..n {
         let c = rng.pick(&focus);
